@@ -1,5 +1,6 @@
 """C05 -- no variable is used out of scope, shadowed, or with its declaration skipped (spec/VarScope.tla)."""
 import json
+import zlib
 
 from . import common, flatcheck
 
@@ -49,6 +50,29 @@ def drift(case, obs):
     return out
 
 
+# Layouts (no part of the rule, docs/notes-flat.md): where the constants stand, a result type, comments, the end of the file
+LAYOUTS = [
+    {},
+    {"consts_after": True},
+    {"ret": True, "comments": True},
+    {"nonl": True, "consts_after": True, "pparam": True},
+    {"ret": True, "nonl": True, "var_form": 1},
+    {"comments": True, "consts_after": True, "var_form": 2},
+]
+_state = {"seed": 0}
+
+
+def prepare(case):
+    c = dict(case)
+    key = " ".join(case["b"]) + "|" + ",".join(case.get("consts", [])) + "|" + ",".join(case.get("params", []))
+    lay = dict(LAYOUTS[(zlib.crc32(key.encode()) + _state["seed"]) % len(LAYOUTS)])
+    if any(x.endswith("return") for x in case["b"]):
+        lay.pop("ret", None)
+    if lay:
+        c["layout"] = lay
+    return c
+
+
 def nontrivial(c):
     b = c["b"]
     return any(x[0] == "V" for x in b) and any(x[0] == "U" for x in b)
@@ -56,8 +80,18 @@ def nontrivial(c):
 
 CFG = {
     "module": "MC_VarScope",
-    "mc_cfg": {"quick": ["MC_VarScope_quick.cfg", "MC_VarScope_quick_cfgs.cfg"],
-               "thorough": ["MC_VarScope_thorough.cfg", "MC_VarScope_thorough_cfgs.cfg", "MC_VarScope_thorough_2labels.cfg"]},
+    # dimension audit (docs/notes-flat.md): fns / fnscfgs = modules of two function bodies (state of the scoper that
+    # survives a function: scopes, pruned / poisoned sets, resolution ids; parameters and constants); ctx = uses as
+    # assignment target and inside their own declaration, else-parts, a label named like the variable; ret = the result
+    # expression after `return:` with `goto return`; phased = two labels x two variables in longer bodies; else = if / else
+    # chains of blocks and gotos up to 6 (7) items (`if c { } else goto y; var a; y: x = a;` has 6)
+    "mc_cfg": {"quick": ["MC_VarScope_quick.cfg", "MC_VarScope_quick_cfgs.cfg", "MC_VarScope_fns_quick.cfg",
+                         "MC_VarScope_fnscfgs_quick.cfg", "MC_VarScope_ctx_quick.cfg", "MC_VarScope_ret_quick.cfg",
+                         "MC_VarScope_phased_quick.cfg", "MC_VarScope_else_quick.cfg"],
+               "thorough": ["MC_VarScope_thorough.cfg", "MC_VarScope_thorough_cfgs.cfg", "MC_VarScope_thorough_2labels.cfg",
+                            "MC_VarScope_fns_thorough.cfg", "MC_VarScope_fnscfgs_thorough.cfg", "MC_VarScope_ctx_thorough.cfg",
+                            "MC_VarScope_ret_thorough.cfg", "MC_VarScope_phased_thorough.cfg", "MC_VarScope_else_thorough.cfg"]},
+    "prepare": prepare,
     "workers": 8,
     "compare": compare,
     "drift": drift,
@@ -73,18 +107,27 @@ CFG = {
                  "(E402/E422/E424/E482) and walks the control-flow graph of every accepted body to check that each use finds "
                  "its declaration executed (invariant Sound, the independent path-based analysis). Every body is replayed on "
                  "the real compiler. Random bodies (<= 40 items, 3 names, depth 4, if/else blocks) are recorded with hook "
-                 "events and validated by TLC. Non-trivial = distinct bodies with at least one declaration and one use.",
+                 "events and validated by TLC. Dimension audit: modules of two function bodies (item F: scopes, pruned / poisoned "
+                 "sets, resolution ids and parameters must not survive a function; constants must), uses as assignment target "
+                 "(`n = x;`), inside their own declaration (`var n: i32 = n;`) and as result expression after `return:` with "
+                 "`goto return`, else-blocks / else-gotos, a label named like the variable, two labels x two variables in phased "
+                 "bodies up to 6 (thorough 7) items; layouts (constants after the functions, result type, comments, no final "
+                 "newline); every third random run has 1-3 functions, results, else-if forms, nesting up to 8. "
+                 "Non-trivial = distinct bodies with at least one declaration and one use.",
     "assumptions": [
         "uses are reads (`x = n;`), declarations are `var n: i32 = 0;`; scoping does not depend on types",
         "E482 is compared only on bodies whose labels are all legal and without duplicate declarations "
         "(otherwise resolution of a use is ambiguous); E402/E422/E424 are compared on every body",
         "one E482 per skipped variable is demanded (at its first use after the label), further ones are permitted (cascade policy)",
-        "the path exploration covers {goto, if-goto, loop, if-block}; else-chains are only covered syntactically",
+        "the path exploration covers {goto, if-goto, loop, if-block} of single function bodies; else-chains and modules of several "
+        "functions are covered syntactically (the rule for a module is the rule for each body)",
+        "the parameters of a configuration belong to the first function of a module; assignment targets are never constants or parameters",
     ],
 }
 
 
 def run(rep, tier, seed, selftest):
+    _state["seed"] = seed
     return flatcheck.run_flat(rep, tier, seed, selftest or tier == "thorough", CFG)
 
 
